@@ -795,7 +795,20 @@ class CSemantics:
             if op[0] in ["+", "-"] and lhs.typ.is_pointer:
                 self.ensure_integer(rhs)
                 lhs = self.ensure_no_void_ptr(lhs)
-            rhs = self.coerce(rhs, result_typ)
+                rhs = self.coerce(rhs, result_typ)
+            elif op != "=" and lhs.typ.is_scalar and rhs.typ.is_scalar:
+                # a op= b is a = a op b: the operation is done in the type
+                # given by the usual arithmatic conversions, the code
+                # generator converts the result back to the type of a.
+                if op in ["<<=", ">>="]:
+                    op_typ = self.promote(lhs).typ
+                else:
+                    op_typ = self.get_common_type(
+                        self.promote(lhs).typ, self.promote(rhs).typ, location
+                    )
+                rhs = self.coerce(rhs, op_typ)
+            else:
+                rhs = self.coerce(rhs, result_typ)
         elif op == ",":
             result_typ = rhs.typ
         elif op == "+":
